@@ -43,29 +43,60 @@ Print Assumptions c11_reparse_tokens.
    scanner with SetUnescapeBody(false) is lossless.  (errs counts the expressions that do not parse; inside only
    records whether some text literal has raw byte escapes — the output is the template in every case.) *)
 Theorem c11_identity_rewrite_verbatim : forall (isln : N -> bool) (lower : N -> N) (printable : N -> bool) tops s,
-  isln 0 = false -> nulfree s ->
+  isln 0 = false -> isln 46 = false -> nulfree s ->
   exists errs inside,
     refactor_template isln lower printable (fun _ => None) tops s = Ok (s, errs, inside).
 Proof. exact identity_verbatim_stmt. Qed.
 Print Assumptions c11_identity_rewrite_verbatim.
 
-(* Second sentence, renaming: ContextRefRename(from, to) — modelled by rename, with is_from n = strings.EqualFold(n,
-   from) — renames exactly the FREE context references that match, in place (frefs: the references not inside an
+(* Second sentence, renaming: ContextRefRename(from, to) — the renaming proper is modelled by rename, with is_from n =
+   (n and from have the same lower case, as in evaluation; since the repair of hunt finding C11/2, before: EqualFold) —
+   renames exactly the FREE context references that match, in place (frefs: the references not inside an
    anonymous function that has a parameter named like `from`, in source order); the references bound by such a
    parameter (brefs) are left as they are (since /repo 881a989; before, they were renamed too and the meaning of
    `(webhook) => webhook` changed — finding, repaired); and nothing else changes: the tree with reference names
    blanked (erase) is identical — operators, lookups, literals, parameter lists, Parentheses.  When no free reference
-   matches the tree is untouched and the transformation reports "unchanged" (so, by the theorem above, the template
-   text is kept verbatim).  Tree level; the tie to the text refactor.Template returns is the correspondence run
-   (model/ExRefactorCorr.v) — and, for a target that is a NAME, c11_reparse_tokens' argument applies to the printed
-   tokens of the renamed tree unchanged, since only texts of NAME tokens differ (not stated as a theorem). *)
+   matches the tree is untouched.  Stated for ANY is_from.  The whole transformation: c11_rename_transformation.
+   Tree level; the tie to the text refactor.Template returns is the correspondence run (model/ExRefactorCorr.v) —
+   and, for a target that is a NAME, c11_rename_reparse. *)
 Theorem c11_rename_exact : forall (is_from : ExSyntax.text -> bool) (to : ExSyntax.text) e,
   frefs is_from (rename is_from to e) = map (fun n => if is_from n then to else n) (frefs is_from e)
   /\ brefs is_from (rename is_from to e) = brefs is_from e
   /\ erase (rename is_from to e) = erase e
-  /\ (existsb is_from (frefs is_from e) = false -> rename is_from to e = e /\ rename_tx is_from to e = None).
+  /\ (existsb is_from (frefs is_from e) = false -> rename is_from to e = e).
 Proof. exact rename_exact_stmt. Qed.
 Print Assumptions c11_rename_exact.
+
+(* The whole transformation function ContextRefRename(from, to) returns (rename_tx): it reports "unchanged" exactly
+   when no free reference is named like `from` (then, by c11_identity_rewrite_verbatim, the template text is kept
+   verbatim); otherwise it leaves the tree  rename (avoid e)  where avoid is the step that protects the renamed
+   references from capture in the OTHER direction (hunt finding C11/1, repaired): every anonymous-function parameter
+   named like a name the replacement refers to (target_names: webhook for webhook.json) that has a reference to be
+   renamed in its body is given a name nothing else uses, together with the references to it.  When no such
+   parameter exists (captures = false for every name of the replacement) avoid changes NOTHING and the transformation
+   is exactly the renaming of c11_rename_exact. *)
+Theorem c11_rename_transformation : forall (lower : N -> N) (from to : ExSyntax.text) e,
+  let isf := is_from lower from in
+  let e1 := avoid lower from to (target_names lower to) (used_names lower e) e in
+  (existsb isf (frefs isf e) = false -> rename_tx lower from to e = None)
+  /\ (existsb isf (frefs isf e) = true -> rename_tx lower from to e = Some (rename isf to e1))
+  /\ ((forall m, In m (target_names lower to) -> captures lower from m false e = false) -> e1 = e).
+Proof. exact rename_tx_stmt. Qed.
+Print Assumptions c11_rename_transformation.
+
+(* ... and after that step NOTHING is captured: in the tree the references are renamed in, no anonymous function with
+   a parameter named like a name of the replacement contains a reference that is renamed — for every expression,
+   every `from` and every replacement (lower = unicode.ToLower: idempotent, and '_' is its own lower case).  Witness
+   rename_capture_witness: foreach(array(1, 2), (bar) => foo & bar), foo renamed to bar, gives
+   foreach(array(1, 2), (bar_) => bar & bar_).  Not a theorem: that the parameters given a new name keep binding the
+   same references (the new name is not used elsewhere: pick_fresh_spec) — the driver's binding-aware comparison
+   and evaluation in the moved context check that on every generated template. *)
+Theorem c11_rename_avoids_capture : forall (lower : N -> N) (from to : ExSyntax.text) e,
+  (forall c, lower (lower c) = lower c) -> lower 95 = 95 ->
+  forall m, In m (target_names lower to) ->
+    captures lower from m false (avoid lower from to (target_names lower to) (used_names lower e) e) = false.
+Proof. exact rename_avoids_capture_stmt. Qed.
+Print Assumptions c11_rename_avoids_capture.
 
 (* "evaluates to the same value": PARTIAL — on the expression fragment model/ExTemplate.v evaluates (text
    literals, null, context properties, parentheses, &) the normalised tree evaluates exactly like the original in
